@@ -129,7 +129,7 @@ def oStep (o : OSt) (op : List String) (exts : List (List String)) : OSt × Opti
        some (s!"left={listOr "," (left.map toString)} q={q} early=0" ++ tailStr o.s r.1))
   | ["txstop"] => run .txstop fun _ s' _ =>
       let pend : Int := if s'.tx.locked then -1 else ((s'.tx.pending.map (·.2.2.length)).foldl (· + ·) 0 : Nat)
-      s!"pend={pend}"
+      s!"pend={pend} fl=0"
   | ["gor"] => (o, some "*")
   | ["agent"] =>
     let hc := match hcRun variant [.done] with
@@ -240,7 +240,9 @@ def shMon (m : Mon) (op : List String) (_ : List (List String)) (obs : Option St
       ({ m with cstopped := true }, ft ++ f1 ++ f2 ++ f3 ++ f4)
     | ["txstop"] =>
       let pend := (kv toks "pend").getD "0"
-      let f1 := if pend != "0" && pend != "-1" then [mkFail "txstop-leaves-pending" s!"{pend} events still pending after DirectTransmission.Stop"] else []
+      let fl := (kv toks "fl").getD "0"
+      let f0 := if fl != "0" then [mkFail "txstop-returns-before-flush" s!"DirectTransmission.Stop returned while {fl} accepted event(s) had not reached upstream yet"] else []
+      let f1 := f0 ++ (if pend != "0" && pend != "-1" then [mkFail "txstop-leaves-pending" s!"{pend} events still pending after DirectTransmission.Stop"] else [])
       let missing := m.txacc.filter fun id => !m.ups.contains id
       let f2 := if !missing.isEmpty then [mkFail "txstop-loses-pending-events" s!"events {natList missing} were accepted by the transmission before Stop and never reached upstream"] else []
       ({ m with tstopped := true }, ft ++ f1 ++ f2)
